@@ -132,7 +132,7 @@ CLAIMS = {
                 'still the true tail, and the symbolic composition addLineEnd;delLineEnd restores every link of every pre-existing slot (both '
                 'shapes) and frees the sentinel; gr_slot_linebreak_before nulls exactly the three links across the cut; list mutators are '
                 'rejected in justification passes.  NOT decided: finiteness of widths/origins, and that reverseSlots undoes itself for every '
-                'arrangement of diacritics (value-dependent relinking).  Also: reverseSlots never uses m_last as the end of the list (justify calls it, through positionSlots, with m_last narrowed to the line) and toggles the reversed flag on every path; gr_slot_linebreak_before cuts exactly the links of p->prev() and p.',
+                'arrangement of diacritics (value-dependent relinking).  Also: reverseSlots never uses m_last as the end of the list (justify calls it, through positionSlots, with m_last narrowed to the line) and toggles the reversed flag on every path; gr_slot_linebreak_before cuts exactly the links of p->prev() and p. Round 3: the saved head/tail are read after the entry reversal (no reverseSlots between the save and the narrowing write); JUSTPOOL (every record address formed in Segment::newJustify has index <= count - 1, the range of the loop variable taken from its initial value and step direction, as linear forms); SENTINEL (if delLineEnd reads its argument from m_first / m_last, no call between the addLineEnd store and it can reach a writer of that field -- this rule reports the recorded defect F12, listed in known_findings.json).',
         'note': 'Trusted: clang 14 CFG, tools/grfacts, rules/c19.py, rules/linksym.py, rules/dom.py.  The allocation-failure exit `return -1.0` '
                 'is exempt (DESIGN.md section 7, F7).',
         'technique': 'CFG must-pass / pairing rules with correlated-condition edge cuts + symbolic composition of two functions on an abstract link heap',
@@ -168,7 +168,7 @@ CLAIMS = {
                 'as id and the code-unit offset c - base; every one of the 20 call sites of the association setters takes a closed-form '
                 'argument (another slot\'s before/after/original, the default original, the tabled accumulators) so no arithmetic is done on '
                 'character indices; the char-info accessor keeps its bounds test; plus the shared rules: counts set from the characters '
-                'consumed (C12), iterator step bound (C11), no list mutation after slot numbering (C03). Round 3: GAPFILL (each extension loop of associateChars is guarded by the unset-test of the field it fills and by nothing else about the character), EDGEFILL (some store of char.after sits in a walk going backwards from Slot::before() or over all characters, and symmetrically for char.before: leading / trailing unclaimed runs get both sides -- this rule reported defect F11 on the pre-fix tree), WIDTH (index-carrying fields of Slot, CharInfo and the character count are never the target of an implicit narrowing conversion).',
+                'consumed (C12), iterator step bound (C11), no list mutation after slot numbering (C03). Round 3: GAPFILL (each extension loop of associateChars is guarded by the unset-test of the field it fills and by nothing else about the character), EDGEFILL (some store of char.after sits in a walk going backwards from Slot::before() or over all characters, and symmetrically for char.before: leading / trailing unclaimed runs get both sides -- this rule reported defect F11 on the pre-fix tree), WIDTH (index-carrying fields of Slot, CharInfo and the character count are never the target of an implicit narrowing conversion). ASSOCPASSES (no path through associateChars goes around one of its passes except on an edge that says there are no slots / no characters); the slot numbering rule is semantic (one counter from 0, one step and one Slot::index per iteration of the stream traversal, value handed over before the step); the walker whose value is stored into Slot::after / before is bounded by its guarded steps (linear forms).',
         'note': 'Trusted: clang 14 CFG, tools/grfacts, rules/c05.py and the rules it shares.  The accumulators of ASSOC and associateChars are '
                 'tabled with reasons; associateChars\' range arithmetic itself is value-level.',
         'technique': 'argument-provenance (closed-form) rule over resolved call sites + CFG path rules',
@@ -240,7 +240,7 @@ CLAIMS = {
                 'fact the parser used to rely on; the per-opcode operand validations of the bytecode loader (68, the class-id / user-attribute / '
                 'slot-reference ones being load-bearing for run-time sinks); no failure result is dropped (121 Error::test and load-status call '
                 'sites); the decoder recursion is cut by the nested-context rejection and Code::failure invalidates the code; constant coherence '
-                '(NUMCONTEXTS, attrid extent, gralloc overflow test); and the shared ownership / borrow rules for the failed-load exits (C16).  Also decided: every branch on which an Error::test fired is a tabled rejection whatever the function then returns; no big-endian table field is stored into a narrower integer (NARROWREAD census); Face::Table::decompress releases the borrowed table while the ownership flag still describes it. Round 3: NameTable::getName is part of the rejection inventory; a bound hoisted into a local narrower than the arithmetic it holds is spelled as the truncated value (narrowN(...)) and no longer matches the tabled rejection.',
+                '(NUMCONTEXTS, attrid extent, gralloc overflow test); and the shared ownership / borrow rules for the failed-load exits (C16).  Also decided: every branch on which an Error::test fired is a tabled rejection whatever the function then returns; no big-endian table field is stored into a narrower integer (NARROWREAD census); Face::Table::decompress releases the borrowed table while the ownership flag still describes it. Round 3: NAMEBOUND (NameTable::getName forms its read pointer m_nameData + offset only under a dominating test offset + length <= m_nameDataLength on the untruncated sum, compared as linear forms); a bound hoisted into a local narrower than the arithmetic it holds is spelled as the truncated value (narrowN(...)) and no longer matches a tabled rejection.',
         'note': 'Trusted: clang 14 CFG, tools/grfacts, rules/validators.py, rules/opchecks.py, rules/c01.py, rules/dom.py, and the two frozen tables, '
                 'which are regenerated only after reading the diff.  A renamed operand is exit 2 (re-confirm), never a pass.  Parser loop termination '
                 'and arithmetic overflow in size expressions are not decided.',
